@@ -118,6 +118,7 @@ impl Prop for C14 {
             2 => (0u8..10).prop_flat_map(|ty| (Just(ty), arb_value(ty))).prop_map(|(ty, v)| Case::From { ty, v: v.to_string() }),
             5 => to_case(),
             2 => (0u8..10, arb_d()).prop_map(|(ty, d)| Case::To { ty, d }),
+            1 => (0u8..10, arb_word_coeff(), arb_scale()).prop_map(|(ty, c, s)| Case::To { ty, d: D::new(c, s) }),
         ]
         .boxed()
     }
